@@ -165,10 +165,27 @@ func cmdCheck(args []string) int {
 		return undecided("binding failure: " + strings.Join(bindErrs, " ; "))
 	}
 	var engErrs []string
-	for _, u := range units {
+	for ui := 0; ui < len(units); ui++ {
+		u := units[ui]
 		func() {
 			defer func() {
 				if r := recover(); r != nil {
+					if le, ok := r.(loopClauseErr); ok && u.retries < 6 {
+						// the loop was restructured and its annotations no longer evaluate: they
+						// are dropped for this run; clauses that depended on them fail by name
+						dropLoopSpec(u.ct, le.spec)
+						note := "annotations of a restructured loop no longer evaluate and were dropped: " + le.msg
+						fmt.Println("note:", note)
+						nu := eng.newUnit(u.fn, u.ct)
+						nu.retries = u.retries + 1
+						for k := range u.notes {
+							nu.notes[k] = true
+						}
+						nu.notes[note] = true
+						units[ui] = nu
+						ui--
+						return
+					}
 					if ee, ok := r.(engineErr); ok {
 						engErrs = append(engErrs, u.name()+": "+string(ee))
 					} else {
@@ -545,7 +562,11 @@ func (e *engine) checkBinding(fc *funcContract, fn *ssa.Function) error {
 				// annotations no longer describe it and are dropped (clauses fail by name)
 				ren := renamedIdents(ls.hint, txt)
 				if ren == nil {
-					return loopBindErr(fmt.Sprintf("%s:%d: loop %d of %s: hint %q does not occur in %q", fc.file, ls.line, k, fc.key, ls.hint, strings.TrimSpace(txt)))
+					// restructured header: the clauses are still tried; if they no longer even
+					// evaluate the annotations of this loop are dropped (see dropLoopSpec)
+					ls.hintMismatch = true
+					fmt.Printf("note: %s:%d: loop %d of %s: hint %q does not occur in %q any more\n", fc.file, ls.line, k, fc.key, ls.hint, strings.TrimSpace(txt))
+					continue
 				}
 				fmt.Printf("note: %s:%d: loop %d of %s: hint %q occurs in %q only up to renaming\n", fc.file, ls.line, k, fc.key, ls.hint, strings.TrimSpace(txt))
 				for o, n := range ren {
@@ -613,6 +634,21 @@ func renamedIdents(hint, header string) map[string]string {
 		}
 	}
 	return nil
+}
+
+func dropLoopSpec(fc *funcContract, ls *loopSpec) {
+	for k, v := range fc.loops {
+		if v == ls {
+			delete(fc.loops, k)
+		}
+	}
+	for _, m := range fc.inlLoops {
+		for k, v := range m {
+			if v == ls {
+				delete(m, k)
+			}
+		}
+	}
 }
 
 type loopBindErr string
